@@ -58,7 +58,8 @@ AllKinds == {"tcp-ip", "tcp-domain", "forward", "udp", "icmp", "shell", "shell-t
 DatagramKinds == {"udp", "icmp"}
 ZeroPrecheckKinds == {"shell", "shell-tty", "file-upload", "file-download"}
 DevNames == {"DevSwapPubOrder", "DevUsePerHopStreamId", "DevNoDegenerateCheck", "DevPlaintextFallback",
-             "DevTransitDerives", "DevSaltOmitsRid", "DevDataBeforeKey", "DevSealAfterKeyWipe"}
+             "DevTransitDerives", "DevSaltOmitsRid", "DevDataBeforeKey", "DevSealAfterKeyWipe",
+             "DevPlainAfterKeyCleared"}
 
 ASSUME /\ NT \in 0..2 /\ Kinds1 \subseteq AllKinds /\ Kinds2 \subseteq AllKinds
        /\ Dev \subseteq DevNames /\ Adversary \in BOOLEAN /\ EmitVec \in BOOLEAN /\ Lifecycle \in BOOLEAN
@@ -327,12 +328,30 @@ ExitRead(t) ==
   /\ tun' = [tun EXCEPT ![t] = [@ EXCEPT !.pendX = 1]]
   /\ UNCHANGED <<links, relay, usedSid, knows, derivs>>
 
+\* the exit's idle timer expires the association / session (datagram kinds): same teardown as a CLOSE from the peer
+ExitIdleExpire(t) ==
+  /\ tun[t].xst = "open" /\ tun[t].kind \in DatagramKinds /\ tun[t].mode # "badX"
+  /\ tun' = [tun EXCEPT ![t] = [@ EXCEPT !.xst = "closed"]]
+  /\ UNCHANGED <<links, relay, usedSid, knows, derivs>>
+
+\* An association that HAD a key never emits plaintext: after the teardown the bytes already read are either still
+\* sealed under the tunnel key or dropped (ExitDrop).  Deviations: sealed under the wiped all-zero key (stream kinds,
+\* the key object is zeroed), or - datagram kinds, the key reference is cleared and "no key" means "do not encrypt" -
+\* sent in clear.
 ExitSeal(t, c) ==
   /\ tun[t].pendX = 1 /\ tun[t].xst \in {"open", "closed"}
-  /\ LET K == IF tun[t].xst = "closed" /\ "DevSealAfterKeyWipe" \in Dev THEN WipedKey ELSE tun[t].xkey IN
-       links' = [links EXCEPT ![LastHop] = @ \cup {Frame("DATA", "bwd", tun[t].xsid.id, t, NoVal, NoVal, Sealed(K, c))}]
+  /\ LET body == IF tun[t].xst = "closed" /\ "DevPlainAfterKeyCleared" \in Dev /\ tun[t].kind \in DatagramKinds THEN Plain(c)
+                  ELSE IF tun[t].xst = "closed" /\ "DevSealAfterKeyWipe" \in Dev THEN Sealed(WipedKey, c)
+                  ELSE Sealed(tun[t].xkey, c) IN
+       links' = [links EXCEPT ![LastHop] = @ \cup {Frame("DATA", "bwd", tun[t].xsid.id, t, NoVal, NoVal, body)}]
   /\ tun' = [tun EXCEPT ![t] = [@ EXCEPT !.pendX = 0, !.sentX = @ + 1]]
   /\ UNCHANGED <<relay, usedSid, knows, derivs>>
+
+\* the bytes read before the teardown are discarded (Encrypt reports "association closed")
+ExitDrop(t) ==
+  /\ tun[t].pendX = 1 /\ tun[t].xst = "closed"
+  /\ tun' = [tun EXCEPT ![t] = [@ EXCEPT !.pendX = 0]]
+  /\ UNCHANGED <<links, relay, usedSid, knows, derivs>>
 
 (* ---- data ----------------------------------------------------------------*)
 \* c identifies the application payload / its ciphertext
@@ -425,7 +444,7 @@ Next ==
                         \/ EarlyData(t, <<t, "I", tun[t].sentI>>)
   \/ Lifecycle /\ \E t \in Tunnels :
         \/ IngressOpenTimeout(t) \/ IngressClose(t)
-        \/ ExitRead(t) \/ ExitSeal(t, <<t, "X", tun[t].sentX>>)
+        \/ ExitRead(t) \/ ExitSeal(t, <<t, "X", tun[t].sentX>>) \/ ExitDrop(t) \/ ExitIdleExpire(t)
         \/ \E f \in links[1] : LateAck(t, f)
   \/ Lifecycle /\ \E f \in links[LastHop] : ExitClose(f)
 
